@@ -7,23 +7,22 @@ Local Open Scope N_scope.
 Lemma tie_k_constant : forall n, k_const n = repeat (u8 n) (N.to_nat G.kConstantLength).
 Proof. reflexivity. Qed.
 
-Lemma tie_default_suites :
-  map (fun s => (su_auth s, su_integ s, su_conf s)) default_suites = G.defaultCipherSuites.
-Proof. reflexivity. Qed.
-
-
-(* algorithm tables (authenticator.go, hasher.go, confidentiality.go): hash and truncation per algorithm code *)
+(* algorithm tables (authenticator.go, hasher.go, confidentiality.go), normalised by the translator so that the form
+   of the code (switch, map, named constants, order of the alternatives) does not matter: per algorithm code the hash
+   constructor named (1 = sha1.New, 2 = md5.New, 3 = sha256.New, 0 = none), the integer constants mentioned, and
+   whether the alternative builds an error; the default alternative has no key and comes last *)
 Lemma tie_auth_table :
-  G.auth_table = [([1], "sha1.New 12 nil"); ([3], "sha256.New 16 nil"); ([2], "md5.New nil"); ([], "nil fmt.Errorf")]%string
+  G.auth_table = [([1], (1, [12], false)); ([2], (2, [], false)); ([3], (3, [16], false)); ([], (0, [], true))]
   /\ auth_params 1 = Some (1, 12%nat) /\ auth_params 3 = Some (3, 16%nat) /\ auth_params 2 = Some (2, 0%nat).
 Proof. repeat split. Qed.
+(* integrity: HMAC with the named hash keyed with K(1), truncated to 12 / untruncated / 16 bytes; None is refused *)
 Lemma tie_integrity_table :
-  G.integrity_table = [([0], "nil fmt.Errorf"); ([1], "hmac.New sha1.New _.K 1 12 nil"); ([2], "hmac.New md5.New _.K 1 nil");
-                       ([4], "hmac.New sha256.New _.K 1 16 nil"); ([], "nil fmt.Errorf")]%string
+  G.integrity_table = [([0], (0, [], true)); ([1], (1, [1; 12], false)); ([2], (2, [1], false)); ([4], (3, [1; 16], false));
+                       ([], (0, [], true))]
   /\ integrity_params 1 = Some (Some (1, 12%nat)) /\ integrity_params 2 = Some (Some (2, 16%nat))
   /\ integrity_params 4 = Some (Some (3, 16%nat)).
 Proof. repeat split. Qed.
+(* confidentiality: AES-128-CBC keyed with the first 16 bytes of K(2); None is refused *)
 Lemma tie_confidentiality_table :
-  G.confidentiality_table = [([0], "nil fmt.Errorf"); ([1], "16 _.K 2 ipmi.NewAES128CBC"); ([], "nil fmt.Errorf")]%string.
+  G.confidentiality_table = [([0], (0, [], true)); ([1], (0, [16; 2], false)); ([], (0, [], true))].
 Proof. reflexivity. Qed.
-
